@@ -14,7 +14,9 @@ Two path rules on the CFG:
   until the sibling has been stored into a `->child` slot and the parent's
   `len` has been increased, no return is reachable;
 * callee side (the split functions themselves): after the first store into
-  the node being split (`self->len`, `self->next`), no error return.
+  the node being split (`self->len`, `self->next`) or of the sibling's `len`
+  (from then on the sibling's destructor releases entries the original node
+  still owns), no error return.
 """
 from ..cir import strip, path, callee, const_int, text
 from ..cfg import CFG
@@ -91,7 +93,9 @@ class CalleeSide(Analysis):
             st = self._walk(node, st, c)
         if e.k == "BinaryOperator" and e.v == "=":
             lp = path(e.kids[0])
-            if lp in ("%s->len" % self.params[0], "%s->next" % self.params[0]):
+            sib = self.params[2] if len(self.params) > 2 else None
+            if lp in ("%s->len" % self.params[0], "%s->next" % self.params[0]) or \
+                    (sib is not None and lp == "%s->len" % sib and const_int(e.kids[1]) != 0):
                 self.commit_sites.add(node.id)
                 if sget(st, "m:") is None:
                     st = sset(st, "m:", "%s at %s" % (lp, node.where))
